@@ -64,6 +64,123 @@ def _delegates_to_from(v, va, from_path):
     return rv.op == "agg" and rv.args[2] == "Ok" and rv.args[3] and rv.args[3][0] is va.call_term(calls[0][0])
 
 
+def _zip_fill_form(prog, v, va):
+    """`let mut buf = [0u8; N]; let mut len = 0; for (slot, ch) in buf.iter_mut().zip(s.chars()) { *slot = from_char(ch); len += 1 }
+    Ok(Df88591String(ArrayVec::from_array_len(buf, len)))`: zip ends with the shorter side, so the first min(N, #chars) characters are mapped by
+    from_char into the first slots, in order, and len counts them - the list chars().take(N) + push_char builds.
+    -> None when the visitor is not written like this, else a list of reasons why the form is not met (empty = met)."""
+    import looprules
+    ZIP_NEXT = "<core::iter::Zip<A, B> as core::iter::Iterator>::next"
+    calls = [(b, t, callee_of(t)) for b, t in v.calls()]
+    names = [c for _, _, c in calls]
+    if ZIP_NEXT not in names or not any((c or "").endswith("ArrayVec::<A>::from_array_len") for c in names):
+        return None
+    why = []
+    allowed = {"core::slice::<impl [T]>::iter_mut", "core::str::<impl str>::chars", "core::iter::Iterator::zip", libmodel.INTO_ITER, ZIP_NEXT,
+               "util::Df88591StringChars::from_char", "tinyvec::ArrayVec::<A>::from_array_len"}
+    for c in names:
+        if c not in allowed:
+            why.append("calls %s" % c)
+    loops = v.loops()
+    nexts = [b for b, t, c in calls if c == ZIP_NEXT]
+    if len(loops) != 1 or len(nexts) != 1 or names.count("tinyvec::ArrayVec::<A>::from_array_len") != 1:
+        return why + ["not one zip loop followed by one from_array_len"]
+    h, body = list(loops.items())[0]
+    ct = va.call_term(nexts[0])
+    item = mk("field", mk("downcast", ct, 1), 0)
+    slot, ch = mk("field", item, 0), mk("field", item, 1)
+    # the zipped sources: buf.iter_mut() and s.chars()
+    src = libmodel.iterator_source(ct, va)
+    y = src[0] if src is not None else None
+    while y is not None and y.op == "call" and y.args[0] == libmodel.INTO_ITER:
+        y = y.args[1][0]
+    bufl = None
+    if not (y is not None and y.op == "call" and y.args[0] == "core::iter::Iterator::zip" and len(y.args[1]) == 2):
+        why.append("the loop does not run over a zip")
+    else:
+        a_, b_ = y.args[1]
+        r_ = a_.args[1][0] if a_.op == "call" and a_.args[0] == "core::slice::<impl [T]>::iter_mut" and a_.args[1] else None
+        while r_ is not None and r_.op in ("ref", "mem", "memval", "cast"):
+            r_ = r_.args[1] if r_.op == "cast" else r_.args[0]
+        if r_ is None or r_.op != "loc":
+            why.append("the first zipped iterator is not iter_mut() of a local buffer")
+        else:
+            bufl = r_.args[1]
+        c_ = b_.args[1][0] if b_.op == "call" and b_.args[0] == "core::str::<impl str>::chars" and b_.args[1] else None
+        while c_ is not None and c_.op in ("ref", "mem", "memval"):
+            c_ = c_.args[0]
+        if not (c_ is not None and c_.op == "arg" and c_.args[1] == 2):
+            why.append("the second zipped iterator is not chars() of the visited string")
+    # the buffer: a local [u8; N] zero-filled once, borrowed once (for iter_mut), moved into from_array_len
+    fb = [(b, t) for b, t, c in calls if c == "tinyvec::ArrayVec::<A>::from_array_len"][0]
+    if bufl is not None:
+        lty = v.locals[bufl]
+        defs = [(b, i, s_) for b in sorted(v.reachable()) for i, s_ in enumerate(v.blocks[b]["stmts"]) if s_["k"] == "assign" and s_["place"]["local"] == bufl]
+        if not (lty.get("k") == "array" and len(defs) == 1 and not defs[0][2]["place"]["proj"] and defs[0][2]["rv"]["k"] == "repeat"
+                and is_const(va.rv_term(defs[0][2]["rv"], defs[0][:2]).args[0] if va.rv_term(defs[0][2]["rv"], defs[0][:2]).args else None)):
+            why.append("the buffer is not a local array filled once by [0; N]")
+        else:
+            rt = va.rv_term(defs[0][2]["rv"], defs[0][:2])
+            if const_val(rt.args[0]) != 0:
+                why.append("the buffer is not zero-filled")
+        borrows = [(b, i) for b in sorted(v.reachable()) for i, s_ in enumerate(v.blocks[b]["stmts"])
+                   if s_["k"] == "assign" and s_["rv"]["k"] in ("ref", "addr") and s_["rv"]["place"]["local"] == bufl]
+        if len(borrows) != 1 or borrows[0][0] in body:
+            why.append("the buffer is borrowed %d times" % len(borrows))
+        fa_ = va.call_args(fb[0])
+        a0 = fb[1]["args"][0]
+        if not (a0["k"] in ("move", "copy") and not a0["place"]["proj"]):
+            why.append("from_array_len is not given the buffer")
+        else:
+            d_ = [s_ for s_ in v.blocks[fb[0]]["stmts"] if s_["k"] == "assign" and s_["place"]["local"] == a0["place"]["local"]]
+            src_ok = a0["place"]["local"] == bufl or (len(d_) == 1 and d_[0]["rv"]["k"] == "use" and d_[0]["rv"]["op"]["k"] in ("move", "copy")
+                                                      and d_[0]["rv"]["op"]["place"] == {"local": bufl, "proj": []})
+            if not src_ok:
+                why.append("from_array_len is not given the buffer")
+    if fb[0] in body:
+        why.append("from_array_len inside the loop")
+    # one store per completed iteration: *slot = from_char(ch)
+    stores = []
+    for x in sorted(body):
+        for i, s_ in enumerate(v.blocks[x]["stmts"]):
+            if s_["k"] == "assign" and s_["place"]["proj"] and s_["place"]["proj"][0]["k"] == "deref":
+                stores.append((x, i, s_))
+    if len(stores) != 1:
+        why.append("%d stores through a reference per iteration" % len(stores))
+    else:
+        x, i, s_ = stores[0]
+        holder = va.val(s_["place"]["local"], (x, i))
+        pv = va.rv_term(s_["rv"], (x, i))
+        if holder is not slot or len(s_["place"]["proj"]) != 1:
+            why.append("the store does not go to the current slot")
+        if not (pv.op == "call" and pv.args[0] == "util::Df88591StringChars::from_char" and len(pv.args[1]) == 1 and pv.args[1][0] is ch):
+            why.append("the stored byte is %s, expected from_char(ch) of the zipped character" % show(pv, va.names))
+        okc, dc = looprules.action_complete(v, va, x)
+        if not okc:
+            why.append(dc)
+    # the length: 0 before the loop, + 1 on every completed iteration
+    ln = va.call_args(fb[0])[1]
+    if not (ln.op == "phi" and ln.args[2] == h):
+        why.append("the length handed to from_array_len is %s, expected the loop's iteration counter" % show(ln, va.names))
+    else:
+        for pb, w in va.phi_operands(ln):
+            if pb in body:
+                from algebra import lin
+                la, lc = lin(w)
+                if not (lc == 1 and dict(la) == {ln: 1}):
+                    why.append("the counter after an iteration is %s" % show(w, va.names))
+            elif not (is_const(w) and const_val(w) == 0):
+                why.append("the counter starts at %s" % show(w, va.names))
+    # the result
+    rets = v.return_blocks()
+    rv = va.end_val(0, rets[0]) if len(rets) == 1 else None
+    okr = rv is not None and rv.op == "agg" and rv.args[2] == "Ok" and rv.args[3] and rv.args[3][0].op == "agg" and rv.args[3][0].args[0] == "util::Df88591String" \
+        and len(rv.args[3][0].args[3]) == 1 and rv.args[3][0].args[3][0] is va.call_term(fb[0])
+    if not okr:
+        why.append("the result is not Ok(Df88591String(from_array_len(buf, len)))")
+    return why
+
+
 def _strip(x):
     while x.op in ("ref", "mem", "memval"):
         x = x.args[0]
@@ -393,7 +510,15 @@ def rule_handwritten(prog, res):
                 okn = n_ is not None and n_.op in ("opaque_const", "const") and ("N" in str(n_.args) or n_.op == "const")
                 ok = okf and okn
                 takes = [("collect form", chain)]
-        res.ob("Z-vis", "Df88591String visitor | reads chars().take(N) and pushes each (N characters always fit N bytes of Latin-1)", ok, str(takes), v.loc,
+        if not ok:
+            zf = _zip_fill_form(prog, v, va)
+            if zf is not None:
+                ok = not zf
+                takes = [("zip-fill form", zf or "buf = [0; N]; one from_char(ch) stored per (slot, ch) of buf.iter_mut().zip(chars()); length = iterations")]
+                res.ob("Z-vis", "Df88591String visitor | reads chars().take(N) and pushes each (N characters always fit N bytes of Latin-1)", ok, str(takes), v.loc)
+                takes = None
+        if takes is not None:
+          res.ob("Z-vis", "Df88591String visitor | reads chars().take(N) and pushes each (N characters always fit N bytes of Latin-1)", ok, str(takes), v.loc,
                sample=[show(a, va.names) for b, a in takes])
     v = next((g for p, g in prog.fns.items() if "ArrayStringVisitor" in p and p.endswith("::visit_str")), None)
     if v is None:
